@@ -39,7 +39,7 @@ MANIFEST = {
     "ref": "DESIGN.md §3 C32",
 }
 BUDGET = {
-    "quick": {"runs": 480, "chunk": 15, "wall": 150, "chunk_timeout": 240},
+    "quick": {"runs": 1800, "chunk": 30, "wall": 150, "chunk_timeout": 240},
     "thorough": {"runs": 12000, "chunk": 25, "wall": 1500, "chunk_timeout": 600},
 }
 
